@@ -1,6 +1,7 @@
 import Proofs.C20Extra
 import Proofs.C20Trans
 import Proofs.C20Sharp
+import Proofs.C20Shift
 /-!
 # C20 — rotamer assignment is a correct hysteresis state machine
 
@@ -10,7 +11,9 @@ Boundary lists: `Model/Generated/RotamerConsts.lean`, regenerated from the sourc
 Vocabulary (all in `Model/Rotamer.lean`): `IsBasin hb i a` (`hb[i] ≤ a < hb[i+1]`), `InWidened hb b i a`
 (some representative `a + 360k` lies in `[hb[i] − b, hb[i+1] + b]`), `SpecRun` (first state = basin of the
 first angle; afterwards keep the state while `InWidened`, else move to the basin of the angle),
-`AvoidsGates` (angle ≠ `v ± b (mod 360)` for every boundary `v`), `Accepted` (the code's own guard
+`AvoidsGates` (angle ≠ `v ± b (mod 360)` for every boundary `v`; at exactly these values the code's two
+comparison branches disagree about open/closed ends — e.g. zero buffer, angle exactly 240 keeps state 1 of
+`[0,120,240,360]` — they are outside the property's quantifier and are only checked for model = code), `Accepted` (the code's own guard
 `0 ≤ b < 360 / n_basins`), `NoSelfWrap` (basin width + 2b ≤ 360 for every basin).
 
 Open findings (see `known_findings.d/C20.json`):
@@ -166,6 +169,22 @@ theorem buffer_out_of_range_rejected : ∀ hb ∈ Generated.boundarySets, ∀ (b
     by_contra hc
     exact hna ⟨not_lt.1 h, not_le.1 hc⟩
 
+/-- angle preparation of the wrappers (`dihedral_angles` L16-17, then the generated shift of each wrapper,
+e.g. psi's −100): a dihedral in [−180°, 180°] ends up in [0, 360), i.e. inside the domain of the theorems above -/
+theorem wrapper_angles_in_range : ∀ shift ∈ [Generated.phiShift, Generated.psiShift, Generated.chiShift], ∀ a : Rat, -180 ≤ a → a ≤ 180 → 0 ≤ shiftAngle shift (normalizeAngle a) ∧ shiftAngle shift (normalizeAngle a) < 360 := by
+  intro shift hs a h0 h1
+  have hr : 0 ≤ shift ∧ shift ≤ 360 := by
+    have : ∀ t ∈ [Generated.phiShift, Generated.psiShift, Generated.chiShift], 0 ≤ t ∧ t ≤ 360 := by decide +kernel
+    exact this shift hs
+  obtain ⟨n0, n1⟩ := normalizeAngle_range h0 h1
+  exact shiftAngle_range n0 n1 hr.1 hr.2
+
+/-- the shift commutes with the basin test: the shifted angle lies in `[lo, hi)` iff the unshifted angle lies in
+the basin moved back by the shift, `[lo + s, hi + s)` on the circle (psi: `[0,160)` ↔ `[100,260)`) -/
+theorem shift_commutes_with_basin : ∀ (s a lo hi : Rat), 0 ≤ a → a < 360 → 0 ≤ s → s ≤ 360 → 0 ≤ lo → hi ≤ 360 → ((lo ≤ shiftAngle s a ∧ shiftAngle s a < hi) ↔ ∃ k : Int, lo + s ≤ a + 360 * (k : Rat) ∧ a + 360 * (k : Rat) < hi + s) := by
+  intro s a lo hi ha0 ha hs0 hs hlo hhi
+  exact shiftAngle_basin ha0 ha hs0 hs hlo hhi
+
 /-- 1-D bookkeeping: frame `n` is reported iff frames `n` and `n+1` exist and differ (any integer dtype,
 values in the dtype's range; the subtraction wraps) -/
 theorem transitions1d_spec : ∀ (d : DType) (xs : List Int), (∀ x ∈ xs, d.InRange x) → ∀ n : Nat, n ∈ transitions1d d xs ↔ ∃ x y, xs[n]? = some x ∧ xs[n + 1]? = some y ∧ x ≠ y := by
@@ -232,6 +251,10 @@ example : rotamers [10] [0, 180, 360] 180 = .error .dataInvalid := by decide +ke
 example : rotamers [10] [0, 180, 360] (-1) = .error .dataInvalid := by decide +kernel
 example : rotamers [] [0, 180, 360] 15 = .error .indexError := by decide +kernel
 example : rotamers [10] [5, 180, 360] 15 = .error .dataInvalid := by decide +kernel
+-- the wrappers' angle preparation on concrete values: -170° → 190° → (psi shift 100) 90°; 30° → 30° → 290°
+example : shiftAngle 100 (normalizeAngle (-170)) = 90 := by decide +kernel
+example : shiftAngle 100 (normalizeAngle 30) = 290 := by decide +kernel
+example : normalizeAngle (-1/4) = 719/2 := by decide +kernel
 -- transitions: concrete values, unsigned wrap-around, quiet rows at start / middle / end
 example : transitions1d ⟨8, false⟩ [0, 1, 1, 0, 255, 255, 3] = [0, 2, 3, 5] := by decide
 example : (⟨8, false⟩ : DType).wrap (0 - 1) = 255 := by decide
